@@ -6,6 +6,8 @@ import Driver.ArgStore
 import FiddleModel.Model.Graph
 import FiddleModel.Model.Select
 import FiddleModel.Model.Copy
+import FiddleModel.Model.Rebuild
+import FiddleModel.Model.Codegen
 open Lean Fiddle
 
 namespace Driver.Graph
@@ -275,6 +277,15 @@ def handle (req : Json) : R Json := do
       -- the input heap after an API whose effect is readOnly / allocOnly (`applyEffect`),
       -- restricted to the input's objects
       out := out ++ [(q, heapJson h)]
+    | "rebuild" =>
+      -- identity rebuild / the `objects` table of dump_json, and loading that table again
+      match rebuild h root with
+      | .error _ => out := out ++ [(q, .str "err")]
+      | .ok (r, st) =>
+        let reload := match (straightLine st.out r).run with
+          | some (r2, h2) => mkObj [("root", gvalJson r2), ("heap", heapJson h2)]
+          | none => .str "err"
+        out := out ++ [(q, mkObj [("root", gvalJson r), ("heap", heapJson st.out), ("reload", reload)])]
     | "deepcopy" =>
       out := out ++ [(q, heapJson (Heap.deepcopy h))]
     | "shallow_copy" =>
